@@ -17,7 +17,8 @@ import (
 )
 
 var (
-	errRetryableCode = errors.New("completion code indicated temporary failure")
+	errRetryableCode      = errors.New("completion code indicated temporary failure")
+	errUnexpectedResponse = errors.New("response is not for the command that was sent")
 
 	// these not only save a map lookup each open, but also register the labels
 	v2ConnectionOpenAttempts = connectionOpenAttempts.WithLabelValues("2.0")
@@ -157,6 +158,16 @@ func (s *V2Sessionless) buildAndSendPayload(ctx context.Context, p ipmi.Payload)
 		s.v2SessionLayer.LayerPayload(), gopacket.NilDecodeFeedback)
 }
 
+// isResponseTo reports whether a decoded message is the response to the given
+// request operation: the response network function is the request's plus one,
+// and the command (and body code or enterprise, where the network function has
+// them) must be identical. Anything else is a stray, duplicated or delayed reply
+// to another command.
+func isResponseTo(rsp, req *ipmi.Operation) bool {
+	return rsp.Function == req.Function+1 && rsp.Command == req.Command &&
+		rsp.Body == req.Body && rsp.Enterprise == req.Enterprise
+}
+
 // saves having to write two SerializeLayers calls in SendCommand
 func serializableLayerOrEmpty(s gopacket.SerializableLayer) gopacket.SerializableLayer {
 	if s == nil {
@@ -253,6 +264,9 @@ func (s *V2Sessionless) buildAndSendCommand(ctx context.Context, c ipmi.Command)
 		types := layerexts.DecodedTypes(s.layers)
 		if err := types.InnermostEquals(ipmi.LayerTypeMessage); err != nil {
 			return err
+		}
+		if !isResponseTo(&s.messageLayer.Operation, c.Operation()) {
+			return errUnexpectedResponse
 		}
 
 		code := s.messageLayer.CompletionCode
